@@ -288,6 +288,14 @@ def iterm2_unit(method, term, src, override=None, src_mode="RGB", alpha_kind="fl
             cmds = g.get("iterm2", [])
             eng.oblige("C20:render-method-used=the-per-call-override(any-letter-case),else-the-image's-effective-method", s2,
                        And(method == "lines" or len(cmds) >= 1, *[Eq(c_["height"], 1 if method == "lines" else rh) for c_ in cmds]), prop="C20", kind="post")
+            req = s2.ghost.get("render_data_size")
+            if req is not None:
+                # the pixel data is asked for at the resolution of the method actually used: WHOLE the minimal size, LINES (and a
+                # native-animation request that falls back) the full render size
+                want = (mw, mh) if method == "whole" else (rw * cw, rh * ch)
+                for pr_ in ("C20", "C03"):
+                    eng.oblige(f"{pr_}:pixel-data-requested-at-the-resolution-of-the-method-used", s2, Eq(req, want), prop=pr_, kind="post",
+                               replay="C20.method_override" if pr_ == "C20" else "C03.render")
             if method != "lines":
                 ok = len(cmds) == 1 and And(Eq(cmds[0]["width"], rw), Eq(cmds[0]["height"], rh))
                 eng.oblige("one-image-command-covering-exactly-the-rectangle", s2,
